@@ -211,7 +211,7 @@ struct Case {
     unit: usize,
 }
 
-fn build(_tier: Tier) -> Vec<Case> {
+fn build(tier: Tier) -> Vec<Case> {
     let mut v = Vec::new();
     for t in protocol_targets() {
         if !t.honours_timeout || matches!(t.family, Family::McAuto | Family::McLegacyAuto | Family::Savage2 | Family::Master) {
@@ -224,7 +224,7 @@ fn build(_tier: Tier) -> Vec<Case> {
             }
         }
         for unit in units(t.family, &t) {
-            for retries in 0 ..= 3usize {
+            for retries in 0 ..= if tier.is_thorough() { 5usize } else { 3 } {
                 v.push(Case {
                     label: format!("{} request unit {unit} retries={retries}", t.name),
                     target: t.clone(),
@@ -248,7 +248,7 @@ impl Prop for C10 {
     fn case_label(&self, tier: Tier, idx: usize) -> String { cases(tier)[idx].label.clone() }
     fn rule(&self) -> String {
         "case = (protocol entry point that retries, request unit of its exchange: info / players / rules, handshake+data, \
-         handshake+status+ping ..., retry count r in 0..3). Within the unit every send may fail and every pending reply may \
+         handshake+status+ping ..., retry count r in 0..3 (quick) / 0..5 (thorough)). Within the unit every send may fail and every pending reply may \
          be delivered, dropped (silence) or replaced by a malformed reply (2-4 shapes per format, see assumptions); ALL such outcome sequences are enumerated (the tree is finite \
          because attempts are bounded), the other units are answered validly. Reference model: attempts continue exactly \
          while the previous attempt was timeout-class (nothing received / could not send) and fewer than r+1 were made; never \
